@@ -30,6 +30,8 @@ results = {}
 assert sh('git -C /repo status --porcelain').stdout.strip() == '', '/repo not clean'
 ap = sh('git -C /repo apply %s/patch.diff' % dst)
 assert ap.returncode == 0, ap.stdout
+# the evidence files must describe runs on the unchanged tree only: keep them aside while the patch is applied
+saved_ev = {c: open('/verif/evidence/%s.json' % c).read() for c in checks if os.path.exists('/verif/evidence/%s.json' % c)}
 try:
     for c in checks:
         t0 = time.time()
@@ -39,6 +41,8 @@ try:
         print('check %s: exit %d %s (%.0fs)' % (c, r.returncode, viol[0] if viol else '', time.time() - t0))
 finally:
     sh('git -C /repo checkout -- .')
+    for c, txt in saved_ev.items():
+        open('/verif/evidence/%s.json' % c, 'w').write(txt)
 meta = {'id': sid, 'property': prop, 'confirmed_by_demo': confirmed, 'demo_exit_with_change': with_change.returncode,
         'demo_exit_without_change': without.returncode, 'demo_output_with_change_tail': with_change.stdout[-600:],
         'checks': results, 'caught': any(v['exit'] == 1 and v['violation_line'] for v in results.values()),
